@@ -13,6 +13,7 @@ from dissect.util.stream import AlignedStream
 
 from dissect.hypervisor.disk.c_qcow2 import (
     NORMAL_SUBCLUSTER_TYPES,
+    QCOW2_INCOMPAT_MASK,
     QCOW2_MAGIC,
     UNALLOCATED_SUBCLUSTER_TYPES,
     ZERO_SUBCLUSTER_TYPES,
@@ -68,6 +69,10 @@ class QCow2(AlignedStream):
             self.header.autoclear_features = 0
             self.header.refcount_order = 4
             self.header.header_length = 72
+
+        if self.header.incompatible_features & ~QCOW2_INCOMPAT_MASK:
+            unknown = self.header.incompatible_features & ~QCOW2_INCOMPAT_MASK
+            raise InvalidHeaderError(f"Unsupported incompatible features: 0x{unknown:x}")
 
         if self.header.cluster_bits < c_qcow2.MIN_CLUSTER_BITS or self.header.cluster_bits > c_qcow2.MAX_CLUSTER_BITS:
             raise InvalidHeaderError(f"Unsupported cluster size: 2**{self.header.cluster_bits}")
